@@ -146,9 +146,11 @@ SPECS = {
         canary=(F + "_local_receive", "raising-callback-leaves-the-id-registered", canary_c07)),
     "C10": dict(
         title="setcallback drains the queue in order under the receiver lock (inductive invariant: delivered prefix + remaining queue == old queue), registers only an open channel, re-queues ENDMARKER; _local_receive passes each later item once; the endmarker goes out exactly when a record is popped",
-        targets=[C + "setcallback", F + "_local_receive", F + "_no_longer_opened", F + "_local_close", F + "_finished_receiving", C + "receive"], scenarios=["c10_callback", "c10_dropped_endmarker"],
+        targets=[C + "setcallback", F + "_local_receive", F + "_no_longer_opened", F + "_local_close", F + "_finished_receiving", C + "receive",
+                 "mc::execnet.multi:MultiChannel.make_receive_queue"], scenarios=["c10_callback", "c10_dropped_endmarker"], extra_worlds="mc",
         heavy={C + "setcallback": 6, F + "_local_receive": 6, F + "_finished_receiving": 4},
-        extra=["MultiChannel.make_receive_queue is not under contract yet (native scenario only)", "setcallback racing with a receive() that sits between get and re-put of ENDMARKER"],
+        extra=["MultiChannel.make_receive_queue: every member channel gets a callback with exactly the endmarker asked for (world mc); that the shared queue then carries the per-channel guarantee "
+               "is the composition with setcallback's contract, not a separate proof", "setcallback racing with a receive() that sits between get and re-put of ENDMARKER"],
         canary=(C + "setcallback", "receive-still-possible-after-setcallback", canary_c10)),
     "C18": dict(
         title="new(): fresh ids step by 2 from the start count (parity invariant), an existing registration is never replaced; Channel.__init__; close/_local_close/_no_longer_opened/_finished_receiving remove the id from both tables",
@@ -175,6 +177,10 @@ def make(pid):
             from contracts import io as _cio
 
             extra_worlds = {"io": _cio.declare}
+        if sp.get("extra_worlds") == "mc":
+            from contracts import multichannel as _cmc
+
+            extra_worlds = {"mc": _cmc.declare}
 
         def lemmas(self, w):
             if sp.get("extra_worlds") == "io":
